@@ -22,18 +22,21 @@ Proof. reflexivity. Qed.
 
 (** * the relation *)
 Definition acct_rel (v : N * Z * val) (y : sacct) : Prop :=
-  fst (fst v) = sa_nonce y /\ snd (fst v) = sa_bal y /\ sa_code y = [].
+  fst (fst v) = sa_nonce y /\ snd (fst v) = sa_bal y.
 
 Definition matches (m : st) (S : smap) : Prop :=
-  (forall a k, cur_st m a k = sm_st_get S a k) /\ (forall a, acct_rel (acct_view (cur_oacct m a)) (sm_acct_get S a)).
+  (forall a k, cur_st m a k = sm_st_get S a k) /\ (forall a, acct_rel (acct_view (cur_oacct m a)) (sm_acct_get S a)) /\
+  (forall a, cur_code m a = sa_code (sm_acct_get S a)).
 Definition fl_matches (m : st) (S : smap) : Prop :=
-  (forall a k, fl_st m a k = sm_st_get S a k) /\ (forall a, acct_rel (acct_view (fl_acct m a)) (sm_acct_get S a)).
+  (forall a k, fl_st m a k = sm_st_get S a k) /\ (forall a, acct_rel (acct_view (fl_acct m a)) (sm_acct_get S a)) /\
+  (forall a, nb (cached_code m a) = sa_code (sm_acct_get S a)).
 
 Lemma matches_view_eq m1 m2 S : view_eq m1 m2 -> matches m2 S -> matches m1 S.
 Proof.
-  intros V [M1 M2]. split.
+  intros V [M1 [M2 M3]]. split; [| split].
   - intros a k. rewrite (ve_st m1 m2 V). apply M1.
-  - intros a. rewrite (ve_ac m1 m2 V). apply M2.
+  - intros a. unfold acct_rel. rewrite (ve_ac m1 m2 V). apply M2.
+  - intros a. rewrite (ve_code m1 m2 V). apply M3.
 Qed.
 
 Section WithEnv.
@@ -86,9 +89,10 @@ Proof. intros Hd Hc Hp [C1 C2 C3]. constructor; rewrite ?Hd, ?Hc, ?Hp; assumptio
 
 Lemma fl_matches_frame m m' S : s_db m' = s_db m -> s_cache m' = s_cache m -> fl_matches m S -> fl_matches m' S.
 Proof.
-  intros Hd Hc [F1 F2]. split.
+  intros Hd Hc [F1 [F2 F3]]. split; [| split].
   - intros a k. rewrite (fl_st_frame m m' Hd Hc). apply F1.
   - intros a. rewrite (fl_acct_frame m m' Hd Hc). apply F2.
+  - intros a. rewrite (cached_code_frame m m' Hd Hc). apply F3.
 Qed.
 
 Lemma nums_transfer m m' s s' :
@@ -151,7 +155,8 @@ Record pushed (m m' : st) (ext : list change) : Prop := {
   pu_mono_fl : forall a, fl_acct m' a = fl_acct m a;
   pu_mono_obj : forall a o, aget a (s_objs m) = Some o ->
       exists o', aget a (s_objs m') = Some o' /\ forall k, kget k (o_ost o) <> None -> kget k (o_ost o') <> None;
-  pu_ext_ok : forall l, live_ok m l -> live_ok m' (ext ++ l)
+  pu_ext_ok : forall l, live_ok m l -> live_ok m' (ext ++ l);
+  pu_mono_cc : forall a, cached_code m' a = cached_code m a
 }.
 
 Lemma snap_ok_pushed m m' s ext : snap_ok m s -> pushed m m' ext -> snap_ok m' s.
@@ -185,8 +190,10 @@ Proof.
   - cbn [List.length revert_n]. constructor; try (apply SV); try assumption.
     intro a. rewrite (sv_ac m m' SV). reflexivity.
   - intro a. apply fl_acct_frame; apply SV.
-  - intros l L. cbn [app]. eapply live_ok_mono; [| exact Ho | exact L].
-    intro a. apply fl_acct_frame; apply SV.
+  - intros l L. cbn [app]. eapply live_ok_mono; [| | exact Ho | exact L].
+    + intro a. apply fl_acct_frame; apply SV.
+    + intro a. apply cached_code_frame; apply SV.
+  - intro a. apply cached_code_frame; apply SV.
 Qed.
 
 (** ** building [pushed] *)
@@ -209,16 +216,19 @@ Proof. unfold fl_acct. destruct (aget a (c_acct (s_cache m))); [discriminate | t
 Lemma undo_create_view m m2 a :
   s_db m2 = s_db m -> s_cache m2 = s_cache m -> s_chg m2 = ChCreate a :: s_chg m ->
   (forall a' k, cur_st m2 a' k = cur_st m a' k) ->
-  (forall a', acct_view (cur_oacct m2 a') = acct_view (cur_oacct m a')) ->
+  (forall a', fst (acct_view (cur_oacct m2 a')) = fst (acct_view (cur_oacct m a'))) ->
+  (forall a', cur_code m2 a' = cur_code m a') ->
   aget a (s_objs m) = None -> fl_acct m a = None ->
   view_eq (revert_n e 1 m2) m.
 Proof.
-  intros Hd Hc Hg Hst Hac Ha Hf. cbn [revert_n]. rewrite Hg.
+  intros Hd Hc Hg Hst Hac Hco Ha Hf. cbn [revert_n]. rewrite Hg.
+  assert (Hcache : undo_cache (set_chg m2 (s_chg m)) (ChCreate a) = s_cache m).
+  { unfold undo_cache. cbn [s_cache set_chg]. rewrite Hc.
+    unfold adel. rewrite (aremove_absent N.eqb a _ (fl_acct_none_cache m a Hf)). destruct (s_cache m); reflexivity. }
   destruct (revert_change_views e (set_chg m2 (s_chg m)) (ChCreate a)) as [D [C [G [S [A _]]]]].
   constructor.
   - rewrite D. exact Hd.
-  - rewrite C. unfold undo_cache. cbn [s_cache set_chg]. rewrite Hc.
-    unfold adel. rewrite (aremove_absent N.eqb a _ (fl_acct_none_cache m a Hf)). destruct (s_cache m); reflexivity.
+  - rewrite C. exact Hcache.
   - rewrite G. reflexivity.
   - intros a' k. rewrite S. unfold undo_st. destruct (a' =? a) eqn:E.
     + apply N.eqb_eq in E. subst a'. rewrite (fl_st_of_db_cache (set_chg m2 (s_chg m)) m Hd Hc).
@@ -228,6 +238,10 @@ Proof.
     + apply N.eqb_eq in E. subst a'. cbn [s_db set_chg]. rewrite Hd, (fl_acct_none_db m a Hf).
       unfold cur_oacct. rewrite Ha, Hf. reflexivity.
     + change (cur_oacct (set_chg m2 (s_chg m)) a') with (cur_oacct m2 a'). apply Hac.
+  - intros a'. rewrite revert_change_code. unfold undo_code. destruct (a' =? a) eqn:E.
+    + apply N.eqb_eq in E. subst a'. unfold cur_code at 1. rewrite Ha. f_equal.
+      apply load_code_frame; [exact Hd|]. cbn [s_cache set_cache]. exact Hcache.
+    + change (cur_code (set_chg m2 (s_chg m)) a') with (cur_code m2 a'). apply Hco.
 Qed.
 
 Lemma create_ext_len m a ext0 : create_ext m a ext0 -> ext0 = [] \/ ext0 = [ChCreate a].
@@ -239,17 +253,18 @@ Lemma pushed_same_views m m' a ext0 :
   objs_mono m m' -> aget a (s_objs m') <> None ->
   pushed m m' ext0.
 Proof.
-  intros I SV Hg CE Mo Hp. destruct SV as [V1 V2 V3 V4 V5 V6]. decompose [and] V6.
+  intros I SV Hg CE Mo Hp. destruct SV as [V1 V2 V3 V4 V5 Vc V6]. decompose [and] V6.
   assert (Hfl : forall b, fl_acct m' b = fl_acct m b) by (intro b; apply fl_acct_frame; assumption).
+  assert (Hcc : forall b, cached_code m' b = cached_code m b) by (intro b; apply cached_code_frame; assumption).
   constructor; try assumption.
   - destruct CE as [-> | [-> [Ha Hf]]].
     + cbn [List.length revert_n]. constructor; try assumption. intro b. rewrite V5. reflexivity.
     + apply (undo_create_view m m' a); try assumption. intro b. rewrite V5. reflexivity.
   - intros l L. destruct CE as [-> | [-> [Ha Hf]]]; cbn [app].
-    + eapply live_ok_mono; [exact Hfl | exact Mo | exact L].
+    + eapply live_ok_mono; [exact Hfl | exact Hcc | exact Mo | exact L].
     + cbn [live_ok entry_ok]. split.
       * rewrite Hfl. split; [exact Hf|]. split; [eapply live_ok_absent; eassumption | exact Hp].
-      * eapply live_ok_mono; [exact Hfl | exact Mo | exact L].
+      * eapply live_ok_mono; [exact Hfl | exact Hcc | exact Mo | exact L].
 Qed.
 
 (** a journaled storage write *)
@@ -259,15 +274,17 @@ Lemma pushed_write_st m m' a k b prev ext0 :
   (exists o', aget a (s_objs m') = Some o' /\ kget k (o_ost o') <> None) ->
   pushed m m' (ChState a k prev :: ext0).
 Proof.
-  intros I W Hg CE Hprev Mo [o' [Ho' Hk']]. destruct W as [W1 W2 W3 W4 W5 W6]. decompose [and] W6.
+  intros I W Hg CE Hprev Mo [o' [Ho' Hk']]. destruct W as [W1 W2 W3 W4 W5 Wc W6]. decompose [and] W6.
   assert (Hfl : forall b0, fl_acct m' b0 = fl_acct m b0) by (intro b0; apply fl_acct_frame; assumption).
+  assert (Hcc : forall b0, cached_code m' b0 = cached_code m b0) by (intro b0; apply cached_code_frame; assumption).
   constructor; try assumption.
   - (* undo *)
     cbn [List.length]. change (S (List.length ext0)) with (1 + List.length ext0)%nat. rewrite revert_n_add.
     set (m2 := revert_n e 1 m').
     assert (V2 : s_db m2 = s_db m /\ s_cache m2 = s_cache m /\ s_chg m2 = ext0 ++ s_chg m /\
                  (forall a' k', cur_st m2 a' k' = cur_st m a' k') /\
-                 (forall a', acct_view (cur_oacct m2 a') = acct_view (cur_oacct m a'))).
+                 (forall a', fst (acct_view (cur_oacct m2 a')) = fst (acct_view (cur_oacct m a'))) /\
+                 (forall a', cur_code m2 a' = cur_code m a')).
     { unfold m2. cbn [revert_n]. rewrite Hg.
       destruct (revert_change_views e (set_chg m' (ext0 ++ s_chg m)) (ChState a k prev)) as [D [C [G [S [A _]]]]].
       split; [rewrite D; exact W2|]. split; [rewrite C; exact W3|]. split; [rewrite G; reflexivity|]. split.
@@ -275,61 +292,74 @@ Proof.
         change (cur_st (set_chg m' (ext0 ++ s_chg m)) a' k') with (cur_st m' a' k'). rewrite W4.
         destruct ((a' =? a) && bytes_eqb k' k) eqn:E; [| reflexivity].
         apply andb_true_iff in E. destruct E as [E1 E2]. apply N.eqb_eq in E1. apply bytes_eqb_spec in E2. subst. exact Hprev.
-      - intros a'. rewrite A. unfold undo_ac.
-        change (cur_oacct (set_chg m' (ext0 ++ s_chg m)) a') with (cur_oacct m' a'). rewrite W5. reflexivity. }
-    destruct V2 as [D2 [C2 [G2 [S2 A2]]]].
+      - split.
+        + intros a'. rewrite A. unfold undo_ac.
+          change (cur_oacct (set_chg m' (ext0 ++ s_chg m)) a') with (cur_oacct m' a'). rewrite W5. reflexivity.
+        + intros a'. rewrite revert_change_code. unfold undo_code.
+          change (cur_code (set_chg m' (ext0 ++ s_chg m)) a') with (cur_code m' a'). apply Wc. }
+    destruct V2 as [D2 [C2 [G2 [S2 [A2 K2]]]]].
     destruct CE as [-> | [-> [Ha Hf]]].
     + cbn [List.length revert_n]. constructor; assumption.
     + apply (undo_create_view m m2 a); assumption.
   - intros l L. cbn [app live_ok entry_ok]. split; [exists o'; split; assumption|].
     destruct CE as [-> | [-> [Ha Hf]]]; cbn [app].
-    + eapply live_ok_mono; [exact Hfl | exact Mo | exact L].
+    + eapply live_ok_mono; [exact Hfl | exact Hcc | exact Mo | exact L].
     + cbn [live_ok entry_ok]. split.
       * rewrite Hfl. split; [exact Hf|]. split; [eapply live_ok_absent; eassumption | congruence].
-      * eapply live_ok_mono; [exact Hfl | exact Mo | exact L].
+      * eapply live_ok_mono; [exact Hfl | exact Hcc | exact Mo | exact L].
 Qed.
 
-(** a journaled account-field write: [c] is ChBal / ChNonce holding the previous value *)
-Lemma pushed_write_ac m m' a x c ext0 :
-  Inv m -> wrote_ac m m' a x -> s_chg m' = c :: ext0 ++ s_chg m -> create_ext m a ext0 ->
+(** a journaled account-field write: [c] is ChBal / ChNonce / ChCode holding the previous value *)
+Lemma pushed_write_ac m m' a x b c ext0 :
+  Inv m -> wrote_ac m m' a x b -> s_chg m' = c :: ext0 ++ s_chg m -> create_ext m a ext0 ->
   (c = ChBal a (snd (fst (acct_view (cur_oacct m a)))) /\
-   fst (fst (acct_view (Some x))) = fst (fst (acct_view (cur_oacct m a))) /\ snd (acct_view (Some x)) = snd (acct_view (cur_oacct m a))
+   fst (fst (acct_view (Some x))) = fst (fst (acct_view (cur_oacct m a))) /\ b = cur_code m a
    \/
    c = ChNonce a (fst (fst (acct_view (cur_oacct m a)))) /\
-   snd (fst (acct_view (Some x))) = snd (fst (acct_view (cur_oacct m a))) /\ snd (acct_view (Some x)) = snd (acct_view (cur_oacct m a))) ->
+   snd (fst (acct_view (Some x))) = snd (fst (acct_view (cur_oacct m a))) /\ b = cur_code m a
+   \/
+   exists p, c = ChCode a p /\ fst (acct_view (Some x)) = fst (acct_view (cur_oacct m a)) /\ nb p = cur_code m a /\
+             (p = None -> cached_code m a = None)) ->
   objs_mono m m' -> aget a (s_objs m') <> None ->
   pushed m m' (c :: ext0).
 Proof.
-  intros I W Hg CE Hc Mo Hp. destruct W as [W1 W2 W3 W4 W5 W6]. decompose [and] W6.
+  intros I W Hg CE Hc Mo Hp. destruct W as [W1 W2 W3 W4 W5 Wc W6]. decompose [and] W6.
   assert (Hfl : forall b0, fl_acct m' b0 = fl_acct m b0) by (intro b0; apply fl_acct_frame; assumption).
+  assert (Hcc : forall b0, cached_code m' b0 = cached_code m b0) by (intro b0; apply cached_code_frame; assumption).
   constructor; try assumption.
   - cbn [List.length]. change (S (List.length ext0)) with (1 + List.length ext0)%nat. rewrite revert_n_add.
     set (m2 := revert_n e 1 m').
     assert (V2 : s_db m2 = s_db m /\ s_cache m2 = s_cache m /\ s_chg m2 = ext0 ++ s_chg m /\
                  (forall a' k', cur_st m2 a' k' = cur_st m a' k') /\
-                 (forall a', acct_view (cur_oacct m2 a') = acct_view (cur_oacct m a'))).
+                 (forall a', fst (acct_view (cur_oacct m2 a')) = fst (acct_view (cur_oacct m a'))) /\
+                 (forall a', cur_code m2 a' = cur_code m a')).
     { unfold m2. cbn [revert_n]. rewrite Hg.
       destruct (revert_change_views e (set_chg m' (ext0 ++ s_chg m)) c) as [D [C [G [S [A _]]]]].
       assert (Hcache : undo_cache (set_chg m' (ext0 ++ s_chg m)) c = s_cache m).
-      { destruct Hc as [[-> _] | [-> _]]; simpl; exact W3. }
-      split; [rewrite D; exact W2|]. split; [rewrite C; exact Hcache|]. split; [rewrite G; reflexivity|]. split.
-      - intros a' k'. rewrite S. destruct Hc as [[-> _] | [-> _]]; unfold undo_st;
+      { destruct Hc as [[-> _] | [[-> _] | [p [-> _]]]]; simpl; exact W3. }
+      split; [rewrite D; exact W2|]. split; [rewrite C; exact Hcache|]. split; [rewrite G; reflexivity|]. split; [| split].
+      - intros a' k'. rewrite S. destruct Hc as [[-> _] | [[-> _] | [p [-> _]]]]; unfold undo_st;
           change (cur_st (set_chg m' (ext0 ++ s_chg m)) a' k') with (cur_st m' a' k'); apply W4.
       - intros a'. rewrite A. unfold undo_ac.
         change (cur_oacct (set_chg m' (ext0 ++ s_chg m)) a') with (cur_oacct m' a'). rewrite W5.
-        destruct Hc as [[-> [Q1 Q2]] | [-> [Q1 Q2]]]; destruct (a' =? a) eqn:E; try reflexivity;
-          apply N.eqb_eq in E; subst a'; rewrite Q1, Q2;
-          destruct (acct_view (cur_oacct m a)) as [[? ?] ?]; reflexivity. }
-    destruct V2 as [D2 [C2 [G2 [S2 A2]]]].
+        destruct Hc as [[-> [Q1 Q2]] | [[-> [Q1 Q2]] | [p [-> [Q1 Q2]]]]]; destruct (a' =? a) eqn:E; try reflexivity;
+          apply N.eqb_eq in E; subst a'; cbn [fst snd]; try rewrite Q1;
+          destruct (acct_view (cur_oacct m a)) as [[? ?] ?]; reflexivity.
+      - intros a'. rewrite revert_change_code. unfold undo_code.
+        change (cur_code (set_chg m' (ext0 ++ s_chg m)) a') with (cur_code m' a'). rewrite Wc.
+        destruct Hc as [[-> [Q1 Q2]] | [[-> [Q1 Q2]] | [p [-> [Q1 [Q2 Q3]]]]]]; destruct (a' =? a) eqn:E; try reflexivity;
+          apply N.eqb_eq in E; subst a'; assumption. }
+    destruct V2 as [D2 [C2 [G2 [S2 [A2 K2]]]]].
     destruct CE as [-> | [-> [Ha Hf]]].
     + cbn [List.length revert_n]. constructor; assumption.
     + apply (undo_create_view m m2 a); assumption.
   - intros l L. cbn [app live_ok]. split.
-    { destruct Hc as [[-> _] | [-> _]]; simpl; exact Hp. }
+    { destruct Hc as [[-> _] | [[-> _] | [p [-> [_ [_ Q3]]]]]]; simpl; try exact Hp.
+      split; [exact Hp | rewrite Hcc; exact Q3]. }
     destruct CE as [-> | [-> [Ha Hf]]]; cbn [app].
-    + eapply live_ok_mono; [exact Hfl | exact Mo | exact L].
+    + eapply live_ok_mono; [exact Hfl | exact Hcc | exact Mo | exact L].
     + cbn [live_ok entry_ok]. split.
       * rewrite Hfl. split; [exact Hf|]. split; [eapply live_ok_absent; eassumption | exact Hp].
-      * eapply live_ok_mono; [exact Hfl | exact Mo | exact L].
+      * eapply live_ok_mono; [exact Hfl | exact Hcc | exact Mo | exact L].
 Qed.
 End WithEnv.
